@@ -80,8 +80,8 @@ class ModelState:
 
     def retain(self, new_id, h, sub):
         H = self.handles.get(h)
-        if H is None:
-            return False  # the source handle itself could not be created
+        if H is None or not H.attached:
+            return False  # the source handle could not be created / is no longer tracked
         p = H.path + list(sub)
         try:
             target = self.resolve(H.res, p)
@@ -598,7 +598,7 @@ class Session:
         # --- model
         mod, target = m.apply_op(step, sut_outcome=sut)
         not_a_collection = not isinstance(target, (dict, list))
-        if not_a_collection and mod.kind == "exc" and sut.kind == "exc":
+        if not_a_collection:
             # the path leads to a scalar (or nowhere) on both sides - e.g. after popitem chose
             # another pair than the generator assumed: this is not a collection operation
             pass
